@@ -387,7 +387,7 @@ class C06Monitor(Monitor):
                 self.ev(f, 'C06.e')
         # ---- finish callbacks of processors
         while self.fin_seen < len(f.finish_log):
-            n, item, t = f.finish_log[self.fin_seen]
+            n, item, t = f.finish_log[self.fin_seen][:3]
             self.fin_seen += 1
             c = self.cur.get(n)
             if c is None or c['item'] is not item:
@@ -830,13 +830,346 @@ class C17Monitor(Monitor):
         self.ev(f, 'C17', len(self.batchers))
 
 
+# ===========================================================================
+# C08 routing fidelity
+# ===========================================================================
+class RouteGraph:
+    """Route graph derived from the spec only (never from the objects)."""
+
+    def __init__(self, spec):
+        self.d = {x['n']: x for x in spec['devices']}
+        self.down = {n: [] for n in self.d}
+        for x in spec['devices']:
+            for u in x.get('up', ()):
+                self.down[u].append(x['n'])
+        self.group_in = {}
+        self.group_out = {}
+        for x in spec['devices']:
+            if x['k'] == 'group':
+                self.group_in[x['n']] = list(x.get('inputs') or x['members'][:1])
+                self.group_out[x['n']] = list(x.get('outputs') or x['members'][-1:])
+
+    def exits(self, name, stack):
+        """[(next device, stack)] when a part leaves device `name`."""
+        res = [(d, stack) for d in self.down[name]]
+        g = self.d[name].get('in')
+        if g and name in self.group_out[g] and stack and self.d[stack[-1]]['group'] == g:
+            res += self.exits(stack[-1], stack[:-1])
+        return res
+
+    def successors(self, last, stack):
+        if self.d[last]['k'] == 'path':
+            # `last` was entered (pushed by the caller): next is an input device of its group
+            return [(m, stack) for m in self.group_in[self.d[last]['group']]]
+        return self.exits(last, stack)
+
+
+class C08Monitor(Monitor):
+    def start(self, f):
+        self.g = RouteGraph(f.spec)
+        self.state = {}      # leaf id -> [validated length, stack tuple]
+        self.item_len = {}   # item id -> validated length (gate predicates)
+        self.item_ord = {}
+        self.sink_seen = {n: 0 for n in f.sinks}
+        self.prev_items = set()
+        self.now_items = set()
+
+    def walk(self, f, lf):
+        h = lf.routing_history
+        st = self.state.get(id(lf))
+        if st is None:
+            st = self.state[id(lf)] = [0, ()]
+        if len(h) == st[0]:
+            return
+        if len(h) < st[0]:
+            f.fail('C08.a', f'routing history of {lf.name} shrank from {st[0]} to {len(h)} entries', 'shrank')
+        names = []
+        for dev in h:
+            nm = f.name_of.get(id(dev))
+            if nm is None:
+                f.fail('C08.a', f'routing history of {lf.name} lists {getattr(dev, "name", dev)}, which is not a '
+                       f'configured device', 'unknown_device')
+            names.append(nm)
+        stack = st[1]
+        for i in range(st[0], len(names)):
+            x = names[i]
+            if i == 0:
+                if x != f.leaf_src[id(lf)]:
+                    f.fail('C08.a', f'history of {lf.name} starts with {x}, it was made by {f.leaf_src[id(lf)]}',
+                           'start')
+            else:
+                last = names[i - 1]
+                succ = self.g.successors(last, stack)
+                hit = [s for s in succ if s[0] == x]
+                if not hit:
+                    f.fail('C08.a', f'part {lf.name}: history goes {last} -> {x}, but from {last} (open group paths '
+                           f'{list(stack)}) only {sorted({s[0] for s in succ})} can follow; history: {names}',
+                           'bad_edge', last_kind=self.g.d[last]['k'])
+                if len(stack) != len(hit[0][1]):
+                    f.bump(f.stats['reach'], 'group_exits')
+                    if len(stack) - len(hit[0][1]) > 1:
+                        f.bump(f.stats['reach'], 'nested_group_exits')
+                stack = hit[0][1]
+            if self.g.d[x]['k'] == 'path':
+                stack = stack + (x,)
+                if len(stack) > 1:
+                    f.bump(f.stats['reach'], 'nested_group_entries')
+                if stack.count(x) == 0:
+                    pass
+            # (d) blocked inputs
+            dev = f.dev[x]
+            if i >= st[0] and dev.block_input:
+                op = f.cur_op
+                if not (op and op['op'] == 'block' and op.get('dev') == x):
+                    f.fail('C08.d', f'part {lf.name} entered {x} whose input is blocked', 'blocked_entry')
+        st[0], st[1] = len(names), stack
+        self.ev(f, 'C08.a')
+
+    def check_item(self, f, item):
+        lib = f.lib
+        k = id(item)
+        h = item.routing_history
+        self.now_items.add(k)
+        if k not in self.item_ord:
+            self.item_ord[k] = ordinal_of(item, lib)
+            self.item_len[k] = 0 if k in f.item_src else len(h)
+        elif k not in self.prev_items:
+            # it travelled inside a batch meanwhile: those gate passes were the batch's
+            self.item_len[k] = len(h)
+        for dev in h[self.item_len[k]:]:
+            nm = f.name_of.get(id(dev))
+            if nm is not None and f.kind[nm] == 'gate':
+                self.ev(f, 'C08.c')
+                if not pred_accepts(f.dspec[nm]['pred'], self.item_ord[k]):
+                    f.fail('C08.c', f'{item.name} (ordinal {self.item_ord[k]}) passed gate {nm} whose predicate '
+                           f'{f.dspec[nm]["pred"]} rejects it', 'gate')
+        self.item_len[k] = len(h)
+
+    def after_step(self, f, e):
+        lib = f.lib
+        if f.rewired:
+            return
+        self.prev_items, self.now_items = self.now_items, set()
+        for lid in f.where:
+            lf = f.leaf_by_id.get(lid)
+            if lf is not None:
+                self.walk(f, lf)
+        for s, item in f.new_deliveries:
+            for lf in leaves_of(item, lib):
+                self.walk(f, lf)
+                self.check_holders(f, lf)
+            self.check_item(f, item)
+        for n in f.holders:
+            for slot, item in f.slots(n):
+                self.check_item(f, item)
+        for lf, a, b in f.moves:
+            if lf is not None:
+                self.check_holders(f, lf)
+        # (e) collected order
+        for n in f.sinks:
+            o = f.dev[n]
+            recs = f.env.simulation_data.get('received_part', {}).get(n, [])
+            cp = o.collected_parts
+            if len(cp) != len(recs):
+                f.fail('C08.e', f'sink {n} collected {len(cp)} parts, recorded {len(recs)} receipts', 'collected_len')
+            k = self.sink_seen[n]
+            while k < len(cp):
+                if cp[k].id != recs[k][1]:
+                    f.fail('C08.e', f'sink {n}: collected_parts[{k}] is part id {cp[k].id}, the {k}-th receipt was '
+                           f'part id {recs[k][1]}', 'collected_order')
+                k += 1
+            self.sink_seen[n] = k
+
+    def check_holders(self, f, lf):
+        """(b) holders observed by the census == history filtered to holding devices."""
+        seen = list(f.hseq.get(id(lf), []))
+        names = [f.name_of.get(id(d)) for d in lf.routing_history]
+        hist = [n for n in names if n is not None and f.kind[n] in HOLDER_KINDS]
+        if seen and hist and seen[0] != hist[0] and f.kind[hist[0]] == 'source':
+            seen = [hist[0]] + seen   # generated and handed over before the first observation
+        # a re-entrant route may visit the same holder twice in a row, which the census cannot tell from staying
+        hist = [n for i, n in enumerate(hist) if i == 0 or hist[i - 1] != n]
+        if seen != hist:
+            f.fail('C08.b', f'part {lf.name} was held by {seen} but its routing history lists holders {hist}',
+                   'holders')
+        self.ev(f, 'C08.b')
+
+
+# ===========================================================================
+# C15 recorded data mirrors what happened
+# ===========================================================================
+class C15Monitor(Monitor):
+    def start(self, f):
+        self.lens = {}
+        self.recv_seen = 0
+        self.fin_seen = 0
+        self.n_recv = {}
+        self.n_fin = {}
+        self.n_fail = {n: 0 for n in f.procs}
+        self.n_start = 0
+        self.n_finish = 0
+        self.leafcount = {}
+        self.sink_leaves = {n: 0 for n in f.sinks}
+        self.dispatch_log = []
+        ET = f.lib.EventType
+        self.ET = ET
+        self.known_resources = set(f.spec.get('resources', {}))
+
+    def scan(self, f):
+        """(c) every new record is stamped with the current time; returns the new records."""
+        now, sd = f.env.now, f.env.simulation_data
+        new = {}
+        for label, table in sd.items():
+            for sub, recs in table.items():
+                k = (label, sub)
+                seen = self.lens.get(k, 0)
+                if len(recs) < seen:
+                    f.fail('C15.c', f'records {label}/{sub} shrank', 'shrank')
+                if len(recs) > seen:
+                    new[k] = recs[seen:]
+                    for r in recs[seen:]:
+                        t = r[0] if isinstance(r, tuple) else None
+                        if t != now:
+                            f.fail('C15.c', f'record {label}/{sub} {r} is stamped {t}, now is {now}', 'stamp')
+                    self.lens[k] = len(recs)
+        return new
+
+    def before_step(self, f):
+        if f.step_no == 1:
+            self.scan(f)    # records written during initialisation
+
+    def after_step(self, f, e):
+        env, now, sd = f.env, f.env.now, f.env.simulation_data
+        ET = self.ET
+        if e is not None:
+            a = e.action
+            self.dispatch_log.append({'time': e.time, 'asset_id': e.asset_id,
+                                      'action': getattr(a, '__name__', None) or getattr(getattr(a, 'func', None), '__name__', None),
+                                      'message': e.message, 'event_type': e.event_type})
+            if not e.cancelled:
+                if e.event_type == ET.FAIL:
+                    for n in f.procs:
+                        if f.dev[n].id == e.asset_id:
+                            self.n_fail[n] += 1
+                if f.maint is not None and e.asset_id == f.maint.id:
+                    if e.event_type == ET.START_WORK:
+                        self.n_start += 1
+                    elif e.event_type == ET.FINISH_WORK:
+                        self.n_finish += 1
+        op = f.cur_op
+        if op is not None and op['op'] == 'addres':
+            self.known_resources.add(op['res'])
+        new = self.scan(f)
+        # (c)/(d) received and produced records match the occurrences seen by the harness callbacks
+        exp_recv, exp_fin = {}, {}
+        while self.recv_seen < len(f.recv_log):
+            n, item, t, eff, val, lv, q = f.recv_log[self.recv_seen]
+            self.recv_seen += 1
+            exp_recv.setdefault(n, []).append((t, item.id, q, val))
+            self.n_recv[n] = self.n_recv.get(n, 0) + 1
+            if f.kind[n] == 'sink':
+                self.sink_leaves[n] += len(lv)
+        while self.fin_seen < len(f.finish_log):
+            n, item, t, q, val = f.finish_log[self.fin_seen]
+            self.fin_seen += 1
+            exp_fin.setdefault(n, []).append((t, item.id, q, val))
+            self.n_fin[n] = self.n_fin.get(n, 0) + 1
+        for n in set(exp_recv) | {k[1] for k in new if k[0] == 'received_part'}:
+            got = list(new.get(('received_part', n), []))
+            if got != exp_recv.get(n, []):
+                f.fail('C15.c', f'{n}: received_part records of this step {got} but the device received '
+                       f'{exp_recv.get(n, [])}', 'received_records')
+        for n in set(exp_fin) | {k[1] for k in new if k[0] == 'produced_part'}:
+            got = list(new.get(('produced_part', n), []))
+            if got != exp_fin.get(n, []):
+                f.fail('C15.c', f'{n}: produced_part records of this step {got} but the processor finished '
+                       f'{exp_fin.get(n, [])}', 'produced_records')
+        # (a) buffer levels
+        for b in f.buffers:
+            recs = sd.get('level', {}).get(b, [])
+            last = recs[-1][1] if recs else 0
+            if last != f.dev[b].level():
+                f.fail('C15.a', f'last recorded level of {b} is {last}, its level is {f.dev[b].level()}', 'level')
+        # (b) resources
+        for r in self.known_resources:
+            u, c = f.rm.get_resource_usage(r), f.rm.get_resource_capacity(r)
+            recs = sd.get('resource_update', {}).get(r, [])
+            if recs:
+                if (recs[-1][1], recs[-1][2]) != (u, c):
+                    f.fail('C15.b', f'last resource_update of {r} is {recs[-1]}, pool has usage {u} capacity {c}',
+                           'resource')
+            elif (u, c) != (0, 0) and (u, c) != (0.0, 0.0):
+                f.fail('C15.b', f'resource {r} has usage {u} capacity {c} but no resource_update record', 'resource_none')
+        # (d) counters
+        for n in f.sources:
+            o = f.dev[n]
+            c = len(sd.get('supplied_new_part', {}).get(n, []))
+            left = o._part_generator._generated_part_counter - (1 if o._output is not None else 0)
+            if not (c == o.produced_parts == left):
+                f.fail('C15.d', f'source {n}: {c} supplied_new_part records, produced_parts {o.produced_parts}, '
+                       f'{left} parts left it', 'supplied')
+        for n in f.procs:
+            c = len(sd.get('device_failure', {}).get(n, []))
+            if c != self.n_fail[n]:
+                f.fail('C15.d', f'{n}: {c} device_failure records, {self.n_fail[n]} failure events executed', 'failures')
+        for n in f.holders:
+            if f.kind[n] == 'source':
+                continue
+            c = len(sd.get('received_part', {}).get(n, []))
+            if c != self.n_recv.get(n, 0):
+                f.fail('C15.d', f'{n}: {c} received_part records, {self.n_recv.get(n, 0)} receipts', 'received_count')
+        for n in f.procs:
+            c = len(sd.get('produced_part', {}).get(n, []))
+            if c != self.n_fin.get(n, 0):
+                f.fail('C15.d', f'{n}: {c} produced_part records, {self.n_fin.get(n, 0)} finishes', 'produced_count')
+        for n in f.sinks:
+            if f.dev[n].received_parts_count != self.sink_leaves[n]:
+                f.fail('C15.d', f'sink {n}.received_parts_count is {f.dev[n].received_parts_count}, its received_part '
+                       f'records hold {self.sink_leaves[n]} parts', 'sink_count')
+        if f.maint is not None:
+            m = f.maint.name
+            acc = sum(1 for w in f.wo_log if w[3])
+            eq = len(sd.get('enter_queue', {}).get(m, []))
+            st = len(sd.get('start_work_order', {}).get(m, []))
+            fi = len(sd.get('finish_work_order', {}).get(m, []))
+            if (eq, st, fi) != (acc, self.n_start, self.n_finish):
+                f.fail('C15.d', f'work order records enter/start/finish = {(eq, st, fi)}, occurrences = '
+                       f'{(acc, self.n_start, self.n_finish)}', 'work_orders')
+        self.ev(f, 'C15')
+
+    def after_simulate(self, f):
+        if not f.spec.get('trace'):
+            return
+        import json
+        path = os.path.join(os.environ['HOME'], 'Downloads', f'{f.env.name}_trace.json')
+        try:
+            with open(path) as fp:
+                tr = json.load(fp)
+        except FileNotFoundError:
+            f.fail('C15.e', 'trace=True but no trace file was exported', 'no_trace')
+        got = [tr[str(i)] for i in range(len(tr))] if all(str(i) in tr for i in range(len(tr))) else None
+        if got is None:
+            f.fail('C15.e', f'trace keys are not 0..{len(tr) - 1}', 'trace_keys')
+        if len(got) != len(self.dispatch_log):
+            f.fail('C15.e', f'trace lists {len(got)} events, {len(self.dispatch_log)} were executed', 'trace_len')
+        for i, (g, w) in enumerate(zip(got, self.dispatch_log)):
+            for k in ('time', 'asset_id', 'action', 'message', 'event_type'):
+                if g.get(k) != w[k]:
+                    f.fail('C15.e', f'trace entry {i} has {k}={g.get(k)!r}, the {i}-th executed event had {w[k]!r}',
+                           'trace_entry')
+        f.bump(f.stats['reach'], 'traces_compared')
+        os.remove(path)
+
+
 BY_PROP = {
     'C02': [DownTracker, Census, C02Monitor],
     'C03': [C03Monitor],
     'C05': [C05Monitor],
     'C06': [DownTracker, Integrator, C06Monitor],
+    'C08': [Census, C08Monitor],
     'C11': [C11Monitor],
     'C13': [DownTracker, Integrator, C13Monitor],
+    'C15': [C15Monitor],
     'C16': [Census, C16Monitor],
     'C17': [C17Monitor],
 }
